@@ -210,6 +210,17 @@ def _check_adv(out, model, bus, rom_label, a, m, n, want_sub):
         z0 = A + 0
         got = (x.logical_value, y.logical_value, z.logical_value, z0.logical_value)
         phys = (x.physical, y.physical)
+        # the way the assembler itself advances its position: one name, read, advanced with `+=`, read again
+        B = bus.get_address(a)
+        b0 = B.physical
+        B += m
+        b1 = (B.logical_value, B.physical)
+        B += n
+        b2 = (B.logical_value, B.physical)
+        if (b0, b1, b2) != (A.physical, (got[0], phys[0]), (got[1], phys[1])) or A.logical_value != a:
+            out.bad(f"adv:{rom_label}:{rname}:in-place", want_sub, f"A={a:#08x} read, advanced with += {m:#x} and += {n:#x}: offset before {b0}, then (address, offset) "
+                    f"{b1} and {b2}; A+m and (A+m)+n give {(got[0], phys[0])} and {(got[1], phys[1])}; A itself now {A.logical_value:#08x}")
+            return
     except Exception as e:
         out.bad(f"adv:{rom_label}:{rname}:raised", want_sub, f"{a:#08x}+{m:#x}(+{n:#x}) raised {type(e).__name__}: {e}")
         return
